@@ -119,6 +119,11 @@ func (c *Authority) VerifyQuorumCert(qc hotstuff.QuorumCert) error {
 		if qc.View() != hotstuff.GetGenesis().View() {
 			return fmt.Errorf("genesis quorum certificate has view %d", qc.View())
 		}
+		// nobody signed genesis: a "genesis certificate" that carries a signature would put signers of the
+		// sender's choosing (or none at all) into a block, where the leader rotations read them.
+		if qc.Signature() != nil {
+			return fmt.Errorf("genesis quorum certificate carries a signature")
+		}
 		return nil
 	}
 
